@@ -187,7 +187,9 @@ func runPath(h *Harness, s *Solver, prefix []int32, opt *Options) (res pathResul
 							v.Inconclusive = true
 						}
 					}()
-					if s.check() == "sat" {
+					if ps.mValid && !ps.NoModel {
+						v.Inputs = ps.modelInputs()
+					} else if s.check() == "sat" {
 						v.Inputs = ps.model()
 					} else {
 						v.Inconclusive = true
